@@ -21,6 +21,7 @@ package codegen
 //@ func (*File).Render
 //@   params f dir
 //@   property C09
+//@   locals base:string err:error path:string err#2:error file:*os.File s:*codegen.SectionTemplate err#3:error err#4:error err#5:error err#6:error
 //@   requires f != nil
 //@   callspec FinalizeFunc
 //@       ensures fsWrites >= old(fsWrites)
@@ -96,8 +97,8 @@ package codegen
 //@ smt (declare-fun elemNameSpec (Int String) String)
 //@ func WalkMappedAttr
 //@   params ma it
-//@   locals nat
 //@   property C14
+//@   locals o:*expr.Object nat:*expr.NamedAttributeExpr err:error
 //@   requires ma != nil
 //@   callspec (*AttributeExpr).IsRequired params a attName
 //@       ensures result == isReqSpec(a, attName)
@@ -133,8 +134,8 @@ package codegen
 //@ smt (declare-fun isPrimSpec (Iface) Bool)
 //@ func generatedRequiredValidation
 //@   params att attCtx
-//@   locals res obj
 //@   property C14
+//@   locals res:[]string obj:*expr.Object req:string reqAtt:*expr.AttributeExpr
 //@   requires att != nil && attCtx != nil
 //@   callspec (*Object).Attribute params o n
 //@       ensures result == ptr(*expr.AttributeExpr, objAttrSpec(o, n)) && result <= alloc() && result >= 0
